@@ -293,7 +293,8 @@ def run(tier: str) -> int:
     # behaviour depends on which loop / branch a jump lands in are compared with their source on the
     # symbolic machine, with labels kept and removed.
     titems = []
-    for k, v in probes.loop_nest_probes() + [x for x in probes.call_probes() if "return" in x[0]] + [x for x in probes.access_probes() if x[0] in ("acc:while_true",)]:
+    for k, v in (probes.loop_nest_probes() + [x for x in probes.call_probes() if "return" in x[0]] + [x for x in probes.access_probes() if x[0] in ("acc:while_true",)]
+                 + [x for x in probes.construct_probes() if x[0].startswith(("else:", "if:", "elif:", "ifexp:"))]):
         for vn, vec in (("labels", {}), ("nolabels", {"remove_labels": True})):
             titems.append(("src_vs_ic10", dict(name=f"target:{k}@{vn}", sources=v, opts=vec, tier=tier, timeout=60)))
     tres = harness.pmap(e1.run_task, titems)
@@ -331,7 +332,7 @@ def run(tier: str) -> int:
                 queries=sum(r.get("queries", 0) for r in e3res), truncated=[r["shape"] for r in e3res if r.get("truncated")],
                 assumption="label names: first character a letter, last character not '.', the two names different"),
         targets=dict(programs=len(tres), by_status=base.count_by(tres), paths=sum(r.get("paths") or 0 for r in tres), effects_compared=sum(r.get("effects_compared") or 0 for r in tres),
-                     rule="break / continue in every mix of nested for-range / while loops, early returns, while True with continue and break: source vs emitted code, labels kept and removed"),
+                     rule="break / continue in every mix of nested for-range / while loops, early returns, while True with continue and break, if / elif / else chains nested in each other with statements after the inner chain: source vs emitted code, labels kept and removed"),
         evaluations=len(results),
         distinct_nontrivial=nontrivial,
         rule="programs (seeded generator, call-heavy generator, fixed call graphs, repository sources, name-pool template instances) x option vectors; each compiled with labels kept and removed; non-trivial = both outputs load and contain at least one jump target",
